@@ -11,6 +11,27 @@ NOTES = "All checks are bounded-exhaustive model checking of the real Go code (h
 NOT_APPLICABLE = {}
 
 TEXT = {
+    "C04": dict(
+        engine="graph (E2) + software MMU",
+        design_ref="DESIGN.md §3 C04",
+        technique="explicit-state BFS over the real page-table operations on a simulated RAM + software MMU; exhaustive leaf scan of both address spaces against a reference map after every operation",
+        text="All histories of length <=2 over a 1330-operation alphabet (7 pages spread over all four table levels incl. the temporary-mapping page, 3 frames incl. 2^40-1, 5 flag sets incl. non-present, active/inactive/explicit address spaces, Activate, MapRegion/IdentityMapRegion, allocation failure at each of the first 3 allocations) from the empty state, and length <=2 (quick) / <=3 (thorough) over a reduced alphabet from five non-initial start states (all pages mapped, deepest page, second space built, second space active, planted huge page). After every operation every present leaf reachable from both roots must equal the reference bit for bit (frame + exactly the requested flags, nothing stray: this also catches uncleared new tables), Translate must agree, an operation on the inactive space must leave every table of the active space byte-identical, every changed page of the active space must have been TLB-invalidated, and an allocation failure must return that error with no translation changed.",
+        note="Simulated MMU: present-bit semantics + recursive mapping only; no TLB model, caching attributes or accessed/dirty side effects; data values outside the alphabets are not explored.",
+    ),
+    "C05": dict(
+        engine="choice (E1) + software MMU",
+        design_ref="DESIGN.md §3 C05",
+        technique="bounded-exhaustive enumeration of ELF section sets, reservations and allocation-failure points through the real setupPDTForKernel; exhaustive scan of the new root",
+        text="Every single section over 80 shapes x 5 bases x {0,1,3} reservations, section pairs (full 80x80 product in thorough), adjacent-page triples, three kernel offsets and allocation failure at each of the first 14 allocations run through the real setupPDTForKernel on the software MMU. The new root is scanned exhaustively: every page of every in-range section maps to (addr-offset)>>12+i with P, RW iff writable, NX iff not executable, never user; early reservations keep their translation; nothing else is mapped; CR3 is the new root on success and unchanged on failure.",
+        note="Sections are delivered through the visitElfSectionsFn seam (decoding is C10) and never share a page (the property's precondition).",
+    ),
+    "C06": dict(
+        engine="software MMU with host-aliased data pages",
+        design_ref="DESIGN.md §3 C06",
+        technique="exhaustive enumeration of fault situations (leaf flag product x upper-level presence x environment failures) and of fault sequences on the real page-fault handler; exhaustive guard enumeration over all mapping entry points",
+        text="The real reserveZeroedFrame, pageFaultHandler, MapTemporary and Unmap run on memfd-backed simulated RAM whose data pages are host aliases of the mapped frames. Guard: 6 mapping entry points x 32 flag subsets x {zero frame, other frame} x pages - after every call no present writable leaf to the zero frame exists in any address space. Faults: all 128 leaf flag combinations x each upper level non-present x {allocation, temporary-mapping, unmap} failures x offsets x error codes x {zero frame, shared data frame}: recoverable iff present, read-only, copy-on-write, all levels present and no failure; then the page maps a freshly allocated frame with the old flags minus CoW plus RW, contents equal what the page showed, the shared frame and every other entry untouched, TLB entry invalidated; otherwise a kernel-error panic and no entry changed. Sequences of up to 4 (6) faults over three pages sharing a frame, including repeated faults and writes through the private copies.",
+        note="'Resumes' = the handler returns; 'kernel panic' = Go panic with a *kernel.Error. GPF handler is not exercised.",
+    ),
     "C13": dict(
         engine="graph (E2)",
         design_ref="DESIGN.md §3 C13",
